@@ -42,6 +42,18 @@ def run(run):
     tid_slots = sorted(set(SL.fields_of_type(F, "intermediate_representation::jmp::Jmp", SL.is_tid_ty)) - {("Call", "target")})
     run.floor("block-target slots of Jmp", len(tid_slots), 5)
 
+    def walk_pat(p):
+        yield p
+        if isinstance(p.get("sub"), dict):
+            yield from walk_pat(p["sub"])
+        elif isinstance(p.get("sub"), list):
+            for s_ in p["sub"]:
+                yield from walk_pat(s_["p"] if "p" in s_ else s_)
+        if isinstance(p.get("p"), dict):
+            yield from walk_pat(p["p"])
+        for q in p.get("ps", []):
+            yield from walk_pat(q)
+
     def r1():
         group = [
             ("retarget_nonexisting_jump_targets_to_artificial_sink", F.fn("retarget_nonexisting_jump_targets_to_artificial_sink", mod="intermediate_representation::project"), "assigned"),
@@ -49,69 +61,93 @@ def run(run):
             ("append_jump_targets_with_sub_suffix_when_target_block_was_duplicated", F.fn("append_jump_targets_with_sub_suffix_when_target_block_was_duplicated", mod="block_duplication_normalization"), "assigned"),
             ("propagate_control_flow::retarget_jumps", F.fn("retarget_jumps", mod="propagate_control_flow"), "assigned"),
         ]
-        for label, fn, how in group:
-            assigned = set()
+        from .lib import mayflow as MF
+        from .lib import peval as PE
+
+        def local_callees(fn, depth=2, _seen=None):
+            seen = _seen if _seen is not None else {fn["path"]}
+            out = []
             for n in T.walk_fn(F, fn):
-                if n.get("k") == "Assign":
-                    r = T.root_var_id(n["l"])
-                    if r is not None:
-                        assigned.add(r)
+                if n.get("k") == "Call":
+                    g = F.by_path.get(n.get("r") or "") or F.by_path.get(n.get("f") or "")
+                    if g is not None and g.get("dk") in ("Fn", "AssocFn") and g["path"] not in seen and sum(1 for _ in T.walk(g["body"])) < 400:
+                        seen.add(g["path"])
+                        out.append(g)
+                        if depth > 1:
+                            out.extend(local_callees(g, depth - 1, seen))
+            return out
+
+        def slot_is_assigned(fn, v, f):
+            """may a value bound from the slot (in fn or a helper it calls) be assigned through?"""
+            mf = MF.MayFlow(F)
+            mf.add(fn, set())
+            nb = 0
+            for g in [fn] + local_callees(fn):
+                for b in SL.slot_bindings(F, g, "jmp::Jmp", v, f):
+                    mf.add(g, {b[0]})
+                    nb += 1
+            if not nb:
+                return False, "never bound"
+            mf.solve()
+            return bool(mf.assigned()), "bound but never assigned through"
+
+        for label, fn, how in group:
             for (v, f) in tid_slots:
-                binds = SL.slot_bindings(F, fn, "jmp::Jmp", v, f)
-                used = [b for b in binds if SL.uses(F, fn, b[0])]
-                ok = bool(used) if how == "used" else any(b[0] in assigned for b in binds)
+                if how == "used":
+                    binds = SL.slot_bindings(F, fn, "jmp::Jmp", v, f)
+                    ok, why = bool([b for b in binds if SL.uses(F, fn, b[0])]), ""
+                else:
+                    ok, why = slot_is_assigned(fn, v, f)
                 # a binding of the whole Option and a nested Some(..) binding both count
                 run.check("R1", "%s|Jmp::%s.%s" % (label, v, f), ok,
-                          "%s does not %s the block target Jmp::%s.%s, which the sibling passes treat as a block target: such a target is left dangling / not followed / not renamed" % (label, "rewrite" if how == "assigned" else "return", v, f), F.loc(fn["body"]))
+                          "%s does not %s the block target Jmp::%s.%s (%s), which the sibling passes treat as a block target: such a target is left dangling / not followed / not renamed" % (label, "rewrite" if how == "assigned" else "return", v, f, why), F.loc(fn["body"]))
         # the callee slot must be checked for existence too
         fn = group[0][1]
         binds = SL.slot_bindings(F, fn, "jmp::Jmp", "Call", "target")
         assigned = {T.root_var_id(n["l"]) for n in T.walk_fn(F, fn) if n.get("k") == "Assign"}
         run.check("R1", "retarget_nonexisting|Jmp::Call.target", any(b[0] in assigned for b in binds), "calls to non-existing callees are not redirected to the artificial sink sub", F.loc(fn["body"]))
-        # first-match order: when several slots of one jump dangle, the arm that fires first must repair all of them
-        ms = T.find_matches(fn["body"], adt_suffix="jmp::Jmp")
-        if not ms:
-            raise T.AnchorMissing("no match over Jmp in retarget_nonexisting_jump_targets_to_artificial_sink")
-        m = ms[0]
+        # when several slots of one jump dangle, whatever code runs first must repair all of them (match arms are first-match):
+        # decided per variant and per set of dangling slots by specialising the function
         jmp_adt = F.adt("intermediate_representation::jmp::Jmp")
         import itertools
+        all_tid = SL.fields_of_type(F, "intermediate_representation::jmp::Jmp", SL.is_tid_ty)
         for v in F.variants(jmp_adt):
-            vslots = [f for (vv, f) in SL.fields_of_type(F, "intermediate_representation::jmp::Jmp", SL.is_tid_ty) if vv == v]
+            vslots = [f for (vv, f) in all_tid if vv == v]
             if len(vslots) < 2:
                 continue
-            arms = []
-            for arm in m["arms"]:
-                if v not in T.pat_variant_names(arm["p"]):
-                    continue
-                bind = {}  # local id -> slot
-                for vp in SL.variant_subpatterns(arm["p"], "jmp::Jmp", v):
-                    for f in vslots:
-                        sp = T.pat_field(vp, f)
-                        if sp is not None:
-                            for (i, n, _) in T.pat_bindings(sp):
-                                bind[i] = f
-                gslots = set()
-                if "g" in arm:
-                    for y in T.walk(arm["g"]):
-                        if y.get("k") in ("Var", "Upvar") and y["id"] in bind:
-                            gslots.add(bind[y["id"]])
-                fixes = set()
-                for y in T.walk(arm["b"]):
-                    if y.get("k") == "Assign":
-                        r = T.root_var_id(y["l"])
-                        if r in bind:
-                            fixes.add(bind[r])
-                arms.append((gslots, fixes, arm))
+            bind = {}
+            for f in vslots:
+                for b in SL.slot_bindings(F, fn, "jmp::Jmp", v, f):
+                    bind[b[0]] = f
             for k in range(1, len(vslots) + 1):
                 for D in itertools.combinations(vslots, k):
                     Dset = set(D)
-                    first = next(((g, fx, a) for (g, fx, a) in arms if g and g <= Dset or (g & Dset)), None)
+                    hits = {"scr": 0, "contains": 0}
+
+                    def assume(n, Dset=Dset, hits=hits):
+                        kk = n.get("k")
+                        ty = (F.ty(n) or "").replace("&", "").replace("mut ", "").strip()
+                        if ty.endswith("jmp::Jmp") and kk in ("Field", "Deref", "Borrow"):
+                            hits["scr"] += 1
+                            return ("enum", v)
+                        if kk == "Call" and n.get("n") in ("contains", "contains_key") and len(n.get("a", [])) == 2:
+                            r = T.root_var_id(n["a"][1])
+                            if r in bind:
+                                hits["contains"] += 1
+                                return ("bool", bind[r] not in Dset)
+                        return None
+                    nodes = PE.Spec(F, assume=assume).reach(fn["body"], {})
+                    fixes = set()
+                    for y in nodes:
+                        if y.get("k") == "Assign":
+                            r = T.root_var_id(y["l"])
+                            if r in bind:
+                                fixes.add(bind[r])
                     key = "retarget_nonexisting|%s|dangling:%s" % (v, "+".join(D))
-                    if first is None:
-                        run.violated("R1", key, "no arm repairs a Jmp::%s whose %s dangle" % (v, list(D)), F.loc(m))
+                    if not hits["scr"] or not hits["contains"]:
+                        run.undecided("R1", key, "no existence test of the slots of Jmp::%s recognised" % v, F.loc(fn["body"]))
                     else:
-                        g, fx, a = first
-                        run.check("R1", key, Dset <= fx, "for a Jmp::%s whose %s do not exist the first arm that fires (guard on %s) repairs only %s: the other reference stays dangling (match arms are first-match; order matters)" % (v, list(D), sorted(g), sorted(fx)), F.loc(a["b"]))
+                        run.check("R1", key, Dset <= fixes, "for a Jmp::%s whose %s do not exist only %s are repaired: the other reference stays dangling (match arms are first-match; order matters)" % (v, list(D), sorted(fixes)), F.loc(fn["body"]))
         f_all = F.fn("find_all_jump_targets", adt="Project")
         t = S.Sym(F).term(f_all["body"])
         ins = [x for x in S.subterms(t) if is_call(x, "insert")]
@@ -130,13 +166,15 @@ def run(run):
         for label, fn in (("remove_nonexisting_indirect_jump_targets", F.fn("remove_nonexisting_indirect_jump_targets", adt="Term")),
                           ("generate_sub_tid_to_contained_block_tids_map", F.fn("generate_sub_tid_to_contained_block_tids_map", adt="Project")),
                           ("append_jump_targets_with_sub_suffix_when_target_block_was_duplicated", group[2][1])):
-            hit = any(n.get("k") == "Field" and n.get("fn") == "indirect_jmp_targets" for n in T.walk_fn(F, fn))
+            hit = any(n.get("k") == "Field" and n.get("fn") == "indirect_jmp_targets" for n in T.walk_fn(F, fn)) or any(
+                isinstance(q.get("sub"), list) and any(s_.get("f") == "indirect_jmp_targets" and T.pat_peel(s_["p"]).get("k") != "Wild" for s_ in q["sub"])
+                for pat, scrut, owner in SL.fn_patterns(F, fn) for q in walk_pat(pat))
             run.check("R1", "%s|Blk.indirect_jmp_targets" % label, hit, "%s ignores Blk.indirect_jmp_targets, which the sibling passes treat as block targets" % label, F.loc(fn["body"]))
         # remove_references_to_nonexisting_tids applies both repairs to every block / jump
         fn = F.fn("remove_references_to_nonexisting_tids", adt="Project")
         t = S.Sym(F).term(fn["body"])
         for callee in ("remove_nonexisting_indirect_jump_targets", "retarget_nonexisting_jump_targets_to_artificial_sink"):
-            run.check("R1", "remove_references|calls|%s" % callee, any(is_call(x, callee) for x in S.subterms(t)), "remove_references_to_nonexisting_tids no longer calls %s" % callee, F.loc(fn["body"]))
+            run.check("R1", "remove_references|calls|%s" % callee, any(T.is_call(x, callee) for x in T.walk_fn(F, fn)), "remove_references_to_nonexisting_tids no longer calls %s" % callee, F.loc(fn["body"]))
         exits = [n for n in T.walk(fn["body"]) if n.get("k") in ("Break", "Continue", "Return") and n.get("ds") != "ForLoop"]
         filt = [x for x in S.subterms(t) if is_call(x, ("filter", "take", "skip", "take_while", "skip_while", "step_by"))]
         run.check("R1", "remove_references|visits-everything", not exits and not filt, "the repair loops must visit every jump of every block of every sub", F.loc(fn["body"]))
